@@ -97,6 +97,32 @@ def arm_for(match, variant):
     return arms[0][1]
 
 
+MERGE_FEED = {"constant": ("Program::register_constant",), "builtin": ("Program::register_builtin_info",), "function": ("Program::register_function",),
+              "type": ("environment::import_type",), "tuple": ("environment::import_type",)}
+
+
+def merge_remap_tables(mb, fln, fl0):
+    """{kind: local} — merge_bytecode's old->new tables, each identified by the call that feeds it: the HashMap<usize, usize> whose inserted values are
+    results of register_constant / register_builtin_info / register_function, and the two handed to import_type (4th = types, 5th = tuples)."""
+    hm = [l["i"] for l in mb.locals if (l["ty"] or "").startswith("std::collections::hash::map::HashMap<usize, usize") and not l.get("inl")]
+    out = {}
+    for bi, t in mb.calls():
+        c = t.get("callee") or ""
+        if c.endswith("environment::import_type") and len(t["args"]) > 4:
+            for pos, kind in ((3, "type"), (4, "tuple")):
+                cp = fl0.canon_op(t["args"][pos]) or fln.canon_op(t["args"][pos])
+                if cp and cp[0] in hm:
+                    out.setdefault(kind, cp[0])
+        if c.endswith("HashMap::insert") and len(t["args"]) > 2 and op_place(t["args"][2]):
+            srcs = fln.sources(op_place(t["args"][2])["l"])
+            for kind in ("constant", "builtin", "function"):
+                if srcs and any(x[0] == "call" and any((x[2].get("callee") or "").endswith(f) for f in MERGE_FEED[kind]) for x in srcs):
+                    cp = fl0.canon_op(t["args"][0]) or fln.canon_op(t["args"][0])
+                    if cp and cp[0] in hm:
+                        out.setdefault(kind, cp[0])
+    return out
+
+
 def remap_uses(arm_body):
     """names of the `*_remap` locals consulted with .get(..) in an arm body"""
     out = []
@@ -277,41 +303,115 @@ def r2_index_fields(ctx, rule_id="R-C07-2"):
         ok = len(cons) == 1 and cons[0][1] == v and remaps == [REMAP_OF[kind]]
         ctx.check(ok, R, "tree_shake|sweep|%s" % v, "Instruction::%s(id) -> Instruction::%s(%s[id])" % (v, v, REMAP_OF[kind]),
                   "sweep arm for %s builds %s through %s (expected %s through %s)" % (v, [c[1] for c in cons], remaps, v, REMAP_OF[kind]), "%s:%d" % (ts["file"], arm["ln"]))
-    # remap_function in the environment
-    rf = F.fn("quiver_environment::environment::remap_function")
-    ms = [m for m in hir.matches(hir.body_of(rf)) if (m.get("sty") or "").endswith("bytecode::Instruction")]
-    if not ms:
-        raise CheckError("%s: match over Instruction not found in remap_function" % R)
-    rm = ms[0]
-    rv = set()
-    for arm in rm["arms"]:
-        h = hir.pat_head(arm["pat"], INSTR)
-        if h != hir.ALL:
-            rv |= h
+    # remap_function in the environment — decided on the MIR of merge_bytecode with remap_function (and whatever helpers it was split into)
+    # inlined, so that each table is identified by WHAT FEEDS IT (register_* / import_*), not by a variable, parameter or field name
+    MB = "quiver_environment::environment::Environment::merge_bytecode"
+    RF = "quiver_environment::environment::remap_function"
+    rfn = F.fn(RF)
+    mbi = F.body_with(MB, {RF})
+    fli = Flow(mbi, through_named=True)
+    fl0i = Flow(mbi)
+    tables = merge_remap_tables(mbi, fli, fl0i)
+    missing = [k for k in ("constant", "function", "tuple", "type", "builtin") if k not in tables]
+    if missing:
+        raise CheckError("%s: the %s remap table(s) of merge_bytecode could not be identified by their feeding calls (anchor drifted)" % (R, missing))
+    TCG = ("HashMap::get", "Option::copied", "Option::cloned", "Option::unwrap_or", "Option::unwrap", "Option::map", "Option::unwrap_or_else", "Deref::deref",
+           "Clone::clone", "Option::expect", "Option::map_or", "Option::unwrap_or_default")
+    inl_blocks = {bi for bi, blk in enumerate(mbi.blocks) if blk.get("inl")}
+    rebuilt = {}
+    for bi, si, st in agg_sites(mbi, "bytecode::Instruction"):
+        if bi not in inl_blocks:
+            continue
+        v = st["rv"]["variant"]
+        ops = st["rv"]["ops"]
+        if not ops:
+            continue
+        kinds_used = set()
+        for o in ops:
+            pl = op_place(o)
+            if not pl:
+                continue
+            back = fli.backward({pl["l"]}, through_calls=TCG)
+            for k, tl in tables.items():
+                if tl in back:
+                    kinds_used.add(k)
+        rebuilt.setdefault(v, []).append((bi, si, kinds_used))
+    # ... or inside a closure built by the inlined remap code (`.map(|inst| match inst {..})`): its captured references are mapped back to the tables
+    for bi, si, st in mbi.stmts():
+        if bi not in inl_blocks or st["k"] != "assign" or not st["rv"].get("closure"):
+            continue
+        cb_ = F.body(st["rv"]["closure"])
+        cfl = Flow(cb_, through_named=True)
+        cap_kinds = {}
+        for j, o in enumerate(st["rv"].get("ops", [])):
+            pl = op_place(o)
+            if pl:
+                back = fli.backward({pl["l"]}, through_calls=TCG)
+                for k, tl in tables.items():
+                    if tl in back:
+                        cap_kinds.setdefault(str(j), set()).add(k)
+        for b2, s2, st2 in agg_sites(cb_, "bytecode::Instruction"):
+            v = st2["rv"]["variant"]
+            if not st2["rv"]["ops"]:
+                continue
+            kinds_used = set()
+            for o in st2["rv"]["ops"]:
+                pl = op_place(o)
+                if not pl:
+                    continue
+                for bl in cfl.backward({pl["l"]}, through_calls=TCG):
+                    # reads of the closure environment: (*_1).<j>
+                    for _b3, _s3, st3 in cb_.stmts():
+                        if st3["k"] == "assign" and st3["p"]["l"] == bl:
+                            rp = st3["rv"].get("p") or op_place(st3["rv"].get("op") or {})
+                            if rp and rp["l"] == 1:
+                                for e in rp["pr"]:
+                                    if e[0] == "f" and str(e[2] or "").startswith("closure:"):
+                                        kinds_used |= cap_kinds.get(str(e[1]), set())
+                    # the environment field used directly as a call argument
+                for b3, t3 in cb_.calls():
+                    if t3["dest"]["l"] in cfl.backward({pl["l"]}, through_calls=TCG) and (t3.get("callee") or "").endswith("HashMap::get"):
+                        cp = cfl.canon_op(t3["args"][0])
+                        if cp and cp[0] == 1:
+                            for e in cp[1]:
+                                if e[0] == "f" and str(e[2] or "").startswith("closure:"):
+                                    kinds_used |= cap_kinds.get(str(e[1]), set())
+            rebuilt.setdefault(v, []).append((bi, si, kinds_used))
     want = set(got) - {"Process"}
+    rv = {v for v, lst in rebuilt.items() if any(k for _b, _s, k in lst)}
     ctx.check(rv == want, R, "remap_function|variants", "merge rewrites %s; Process is deliberately left alone" % sorted(rv),
               "remap_function rewrites %s, expected %s (Instruction::Process carries an environment-space function index produced from "
-              "request_process_types and must NOT be remapped; every other index-carrying variant must)" % (sorted(rv), sorted(want)), "%s:%d" % (rf["file"], rm["ln"]))
+              "request_process_types and must NOT be remapped; every other index-carrying variant must)" % (sorted(rv), sorted(want)), "%s:%d" % (rfn["file"], rfn["line"]))
     ctx.exception(R, "remap_function|Process", "reviewed: Instruction::Process(pid, function_index) is emitted from Environment::request_process_types data, so its "
                                               "function index is already in the environment's id space; remapping it through the incoming bytecode's table would corrupt it")
     for v in sorted(want):
-        arm = arm_for(rm, v)
-        if arm is None:
-            continue
-        cons = [c for c in hir.ctors(arm["body"]) if c[0] == INSTR]
-        remaps = remap_uses(arm["body"])
+        lst = rebuilt.get(v, [])
         kind = got[v]
-        ok = len(cons) == 1 and cons[0][1] == v and remaps == [REMAP_OF[kind]]
-        ctx.check(ok, R, "remap_function|%s" % v, "Instruction::%s(id) -> Instruction::%s(%s[id])" % (v, v, REMAP_OF[kind]),
-                  "remap arm for %s builds %s through %s (expected through %s)" % (v, [c[1] for c in cons], remaps, REMAP_OF[kind]), "%s:%d" % (rf["file"], arm["ln"]))
-    # Function.type_id in both
-    for fn, label in ((ts, "tree_shake"), (rf, "remap_function")):
+        ok = bool(lst) and all(k == {kind} for _b, _s, k in lst)
+        ctx.check(ok, R, "remap_function|%s" % v, "Instruction::%s(id) is rebuilt from a lookup in the %s table (the one fed by %s)" % (v, kind, "/".join(MERGE_FEED[kind])),
+                  "the merged Instruction::%s is rebuilt through the table(s) %s (expected exactly the %s table): its index would point into the wrong table or "
+                  "stay in the source program's numbering" % (v, [sorted(k) for _b, _s, k in lst], kind),
+                  mbi.loc(lst[0][0], lst[0][1]) if lst else "%s:%d" % (rfn["file"], rfn["line"]))
+    # Function.type_id (merge): the Function rebuilt by the inlined remap code takes type_id from the type table
+    okf = False
+    for bi, si, st in agg_sites(mbi, "bytecode::Function"):
+        if bi not in inl_blocks:
+            continue
+        d = dict(zip(st["rv"]["fields"], st["rv"]["ops"]))
+        pl = op_place(d.get("type_id", {}))
+        if pl and tables["type"] in fli.backward({pl["l"]}, through_calls=TCG):
+            okf = True
+    ctx.check(okf, R, "remap_function|Function.type_id", "Function.type_id is rewritten through the type table", "remap_function no longer remaps Function.type_id")
+    # Function.type_id (tree_shake)
+    for fn, label in ((ts, "tree_shake"),):
         structs = [x for x in hir.walk(hir.body_of(fn)) if x["e"] == "struct" and (x.get("adt") or x.get("key") or "").endswith("bytecode::Function")]
         ok = False
         for x in structs:
             for f in x["fields"]:
-                if f["name"] == "type_id" and "type_remap" in hir.local_names(f["x"]):
+                if f["name"] == "type_id" and any(n.endswith("_remap") or "remap" in n for n in hir.local_names(f["x"])):
                     ok = True
+        if not structs:
+            raise CheckError("%s: no Function literal in tree_shake (anchor drifted)" % R)
         ctx.check(ok, R, "%s|Function.type_id" % label, "Function.type_id is rewritten through type_remap", "%s no longer remaps Function.type_id" % label)
     # Type fields: derive id-carrying fields from the ADT (usize / Option<usize> / Vec<usize> / Vec<(.., usize)>)
     tadt = F.adt(TYPE)
@@ -381,12 +481,15 @@ def r2_index_fields(ctx, rule_id="R-C07-2"):
                         ok = ok or ("type_remap" in names) or (fname == "entry" and "function_remap" in names)
             ctx.check(ok, R, "tree_shake|%s.%s" % (adt.split("::")[-1], fname), "rewritten through its remap table",
                       "tree_shake no longer remaps %s.%s" % (adt.split("::")[-1], fname))
-    # merge: builtin info type ids remapped
-    mb = F.fn("quiver_environment::environment::Environment::merge_bytecode")
-    structs = [x for x in hir.walk(hir.body_of(mb)) if x["e"] == "struct" and (x.get("adt") or x.get("key") or "").endswith("types::BuiltinInfo")]
+    # merge: builtin info type ids remapped (MIR: the BuiltinInfo registered by merge takes both type ids from lookups in the type table)
     for fname in ("param_type", "result_type"):
-        ok = any(f["name"] == fname and any(k.endswith("remap_type_id") for k in hir.call_keys(f["x"])) and "type_remap" in hir.local_names(f["x"]) for x in structs for f in x["fields"])
-        ctx.check(ok, R, "merge_bytecode|BuiltinInfo.%s" % fname, "rewritten through remap_type_id(.., &type_remap)", "merge_bytecode no longer remaps BuiltinInfo.%s" % fname)
+        ok = False
+        for bi, si, st in agg_sites(mbi, "types::BuiltinInfo"):
+            d = dict(zip(st["rv"]["fields"], st["rv"]["ops"]))
+            pl = op_place(d.get(fname, {}))
+            if pl and tables["type"] in fli.backward({pl["l"]}, through_calls=TCG + ("environment::remap_type_id",)):
+                ok = True
+        ctx.check(ok, R, "merge_bytecode|BuiltinInfo.%s" % fname, "rewritten through the type table", "merge_bytecode no longer remaps BuiltinInfo.%s" % fname)
 
 
 def r3_dispatch_tables(ctx):
@@ -431,18 +534,87 @@ def r5_remap_order_and_freshness(ctx, rule_id="R-C07-5"):
     ts = F.body("quiver_core::optimisation::tree_shake")
     fl = Flow(ts, through_named=True)
     sorts = [(bi, t) for bi, t in ts.calls() if (t.get("callee") or "").split("::")[-1] in ("sort", "sort_unstable")]
-    sorted_locals = {fl.canon_op(t["args"][0])[0] for bi, t in sorts if fl.canon_op(t["args"][0])}
-    names = {ts.local_name(l) for l in sorted_locals}
+    fl0t = Flow(ts)
+    TCS = ("Iterator::collect", "Iterator::map", "Iterator::enumerate", "slice::iter", "Deref::deref", "IntoIterator::into_iter", "Iterator::next",
+           "Iterator::copied", "Iterator::cloned", "Vec::iter", "FromIterator::from_iter", "Iterator::zip")
+    # a sorted vector of old ids is OF KIND k when its elements index bytecode.<k> (that is how the new table is assembled)
+    sorted_vecs = {}     # canonical local -> sort block
+    for bi, t in sorts:
+        c = fl0t.canon_op(t["args"][0]) or fl.canon_op(t["args"][0])
+        if c:
+            sorted_vecs[c[0]] = bi
+            for l2 in fl.backward({c[0]}, through_calls=("Deref::deref", "DerefMut::deref_mut")):
+                if "Vec<usize>" in (ts.local_ty(l2) or ""):
+                    sorted_vecs.setdefault(l2, bi)
+    kind_of = {}
+    for bi, t in ts.calls():
+        c = t.get("callee") or ""
+        if (c.endswith("Index::index") or c.endswith("slice::get") or c.endswith("Vec::get")) and len(t["args"]) > 1:
+            cp = fl.canon_op(t["args"][0])
+            ip = op_place(t["args"][1])
+            if not cp or not ip:
+                continue
+            fields = [e[1] for e in cp[1] if e[0] == "f" and (e[2] or "").endswith("bytecode::Bytecode")]
+            if not fields:
+                continue
+            back = fl.backward({ip["l"]}, through_calls=TCS)
+            for sv in sorted_vecs:
+                if sv in back:
+                    kind_of.setdefault(fields[0], set()).add(sv)
+    # ... or the indexing happens in the closure handed to the iterator over the sorted vector (the closure captures &bytecode.<k>)
+    for bi, t in ts.calls():
+        c = t.get("callee") or ""
+        if c.split("::")[-1] not in ("map", "filter_map", "for_each", "flat_map") or len(t["args"]) < 2:
+            continue
+        clp = op_place(t["args"][1])
+        itp = op_place(t["args"][0])
+        if not clp or not itp:
+            continue
+        back = fl.backward({itp["l"]}, through_calls=TCS)
+        svs_here = [sv for sv in sorted_vecs if sv in back]
+        if not svs_here:
+            continue
+        for _b2, _s2, st in ts.stmts():
+            if st["k"] == "assign" and st["p"]["l"] == clp["l"] and st["rv"].get("closure"):
+                cb_ = F.body(st["rv"]["closure"])
+                cfl = Flow(cb_, through_named=True)
+                for b3, t3 in cb_.calls():
+                    if (t3.get("callee") or "").endswith("Index::index") and len(t3["args"]) > 1:
+                        cp = cfl.canon_op(t3["args"][0])
+                        if not cp or cp[0] != 1:
+                            continue
+                        up = [e[1] for e in cp[1] if e[0] == "f" and str(e[2] or "").startswith("closure:")]
+                        if not up or not up[0].isdigit() or int(up[0]) >= len(st["rv"].get("ops", [])):
+                            continue
+                        pop = op_place(st["rv"]["ops"][int(up[0])])
+                        pc = fl.canon_place(pop) if pop else None
+                        srcs = [pc] if pc else []
+                        # the captured reference: `&bytecode.<k>`
+                        if pop:
+                            for _b4, _s4, st4 in ts.stmts():
+                                if st4["k"] == "assign" and st4["p"]["l"] == pop["l"] and st4["rv"]["k"] == "ref":
+                                    srcs.append(fl.canon_place(st4["rv"]["p"]))
+                        for sc in srcs:
+                            fields = [e[1] for e in sc[1] if e[0] == "f" and (e[2] or "").endswith("bytecode::Bytecode")]
+                            if fields:
+                                for sv in svs_here:
+                                    kind_of.setdefault(fields[0], set()).add(sv)
+    maps = [l["i"] for l in ts.locals if (l["ty"] or "").startswith("std::collections::hash::map::HashMap<usize, usize")]
     for stem in ("functions", "constants", "tuples", "types", "builtins"):
         nm = "sorted_" + stem
-        remap_local = [l["i"] for l in ts.locals if l.get("name") == stem[:-1] + "_remap"]
-        ok = nm in names
-        if ok and remap_local:
-            # the remap is built from the sorted vector and the sort precedes it
-            back = fl.backward({remap_local[0]}, through_calls=("Iterator::collect", "Iterator::map", "Iterator::enumerate", "slice::iter", "Deref::deref", "IntoIterator::into_iter"))
-            sl = [l["i"] for l in ts.locals if l.get("name") == nm]
-            ok = bool(sl) and sl[0] in back
-        ctx.check(ok, R, "tree_shake|%s" % nm, "%s_remap is built by enumerating the sorted old indices" % stem[:-1],
+        svs = kind_of.get(stem, set())
+        ok = False
+        for sv in svs:
+            for m in maps:
+                back = fl.backward({m}, through_calls=TCS)
+                if sv in back:
+                    # the sort happens before the numbering: the block that defines the map is reachable from the sort, not the other way round
+                    defs = [d for d in ts.defs().get(m, []) if d[1] == "term"]
+                    if any(ts.reaches(sorted_vecs[sv], d[0]) and not ts.reaches(d[0], sorted_vecs[sv]) for d in defs) or not defs:
+                        ok = True
+        if not sorted_vecs:
+            raise CheckError("%s: no sorted id vector found in tree_shake (anchor drifted)" % R)
+        ctx.check(ok, R, "tree_shake|%s" % nm, "the %s remap is built by enumerating the SORTED old indices that also select the new %s table" % (stem[:-1], stem),
                   "tree_shake no longer numbers %s by ascending old index (relative order of surviving items may change)" % stem)
     mb = F.body("quiver_environment::environment::Environment::merge_bytecode")
     flm = Flow(mb, through_named=True)
@@ -450,7 +622,25 @@ def r5_remap_order_and_freshness(ctx, rule_id="R-C07-5"):
     feeders = {"constant_remap": ("register_constant",), "tuple_remap": ("import_tuple", "import_type"), "type_remap": ("import_type", "import_tuple"),
                "builtin_remap": ("register_builtin_info",), "function_remap": ("register_function",)}
     for nm, feed in feeders.items():
-        loc = [l["i"] for l in mb.locals if l.get("name") == nm]
+        # the table of this kind: the HashMap<usize, usize> local whose inserted values come from the kind's issuing call, or (type / tuple) the one
+        # handed to import_type in the corresponding argument position — not looked up by variable name
+        loc = []
+        hm = [l["i"] for l in mb.locals if (l["ty"] or "").startswith("std::collections::hash::map::HashMap<usize, usize")]
+        if nm in ("type_remap", "tuple_remap"):
+            pos = 3 if nm == "type_remap" else 4
+            for bi_, t_ in mb.calls():
+                if (t_.get("callee") or "").endswith("environment::import_type") and len(t_["args"]) > pos:
+                    c_ = fl0.canon_op(t_["args"][pos]) or flm.canon_op(t_["args"][pos])
+                    if c_ and c_[0] in hm and c_[0] not in loc:
+                        loc.append(c_[0])
+        else:
+            for bi_, t_ in mb.calls():
+                if (t_.get("callee") or "").endswith("HashMap::insert") and len(t_["args"]) > 2 and op_place(t_["args"][2]):
+                    srcs_ = flm.sources(op_place(t_["args"][2])["l"])
+                    if srcs_ and any(x[0] == "call" and any((x[2].get("callee") or "").endswith(f) for f in feed) for x in srcs_):
+                        c_ = fl0.canon_op(t_["args"][0]) or flm.canon_op(t_["args"][0])
+                        if c_ and c_[0] in hm and c_[0] not in loc:
+                            loc.append(c_[0])
         site = "merge_bytecode|%s" % nm
         if not loc:
             ctx.violated(R, site, "remap table %s is not a local of merge_bytecode (a table kept across merges answers a new program's ids with stale entries)" % nm)
